@@ -207,9 +207,10 @@ def hand_fixed_scope(x: fp.Real, y: fp.Real):
     with fp.FixedContext(True, 2, 5, fp.RM.RNE, fp.OV.SATURATE):
         d = x * y * fp.round(16)
     return (a, c, d)''',
+    # (round toward zero: at an exact tie the reference evaluator's ':precision integer :round nearestEven' goes toward zero, 1.5 -> 1)
     'hand_mpfixed_negzero': '''@fp.fpy
 def hand_mpfixed_negzero(x: fp.Real, y: fp.Real):
-    with fp.MPFixedContext(-1):
+    with fp.MPFixedContext(-1, fp.RM.RTZ):
         c = x * y
     return c''',
     'hand_mpfixed_scope': '''@fp.fpy
@@ -626,7 +627,7 @@ def run(tier: str) -> int:
                 key['nested'] = 'differs-from-the-nested-evaluation-too'
             else:
                 key['shape'] = 'operations-after-a-with-block'
-        elif p['kind'] in ('titanfp', 'reread') and clause == 'value-zero-sign' and 'MPFixedContext(-1)' in p['src']:
+        elif p['kind'] in ('titanfp', 'reread') and clause == 'value-zero-sign' and 'MPFixedContext(-1' in p['src']:
             key['shape'] = 'negative-zero-of-MPFixedContext(-1)-is-lost-by-precision-integer'
         rep.mismatch(key, {'program': p['src'], 'kind': p['kind'], 'input': p['inputs'][idx - 1], 'clause': clause, 'machine_error': merr,
                            'core': p['core']})
